@@ -1,6 +1,8 @@
 (* C15 - Notifier: a publish reaches each eligible subscription exactly once, and no one else.
-   Statements only; every proof is `exact` of a lemma of Proofs/Notifier.v (non-vacuity Examples are there too:
-   subs4, break_immediately, no_break, break_in_the_middle, cancel_in_the_middle, run4*, sweep4, registry_demo).
+   Statements only; every proof is `exact` of a lemma of Proofs/Notifier.v, Proofs/NotifierMore.v or
+   Proofs/NotifierLock.v (non-vacuity Examples are there too: subs4, break_immediately, no_break, break_in_the_middle,
+   cancel_in_the_middle, run4*, sweep4, registry_demo; eligible_ready_is_delivered_ex, returns_prefix_ex,
+   cancelled_registration_ex; lock_demo, writer_blocked, subscribe_seen_ex).
 
    Vocabulary (Model/Notifier.v).  One call of PublishContext sees [subs], the subscriptions registered under the key
    (n.mutex.RLock is held for the whole call), in map-iteration order; each has an identity [sid], [has_ctx],
@@ -8,11 +10,16 @@
    assignable to the target's element type; for untyped nil: the element type can hold nil).  [run_publish pc subs evs]
    drives the three slices successCases/failureCases/failureRefs exactly as coded (index re-basing loop with its early
    break, removals) through the events [evs] (a target became receivable / a subscription context was cancelled / the
-   publish context was cancelled) and returns (sids delivered to, in order; PublishContext has returned). *)
+   publish context was cancelled) and returns (sids delivered to, in order; PublishContext has returned).
+
+   Model/NotifierLock.v puts the calls together under n.mutex: [run_sched true linit sched] runs a schedule of
+   Subscribe / Unsubscribe (atomic, enabled only when no publish is in flight: the write lock), context cancellations
+   and any number of concurrent PublishContext calls (LPubBegin takes the snapshot under the read lock, LPubStep i e is
+   one select outcome of flight i, LPubEnd i its return); [f_snap], [f_delivered], [f_ended] describe a flight. *)
 From Coq Require Import List Arith Bool Sorted Permutation.
-From BB.Model Require Notifier.
-From BB.Proofs Require Notifier.
-Import BB.Model.Notifier.
+From BB.Model Require Notifier NotifierLock.
+From BB.Proofs Require Notifier NotifierMore NotifierLock.
+Import BB.Model.Notifier BB.Model.NotifierLock.
 Import ListNotations.
 
 (* ---- the slices always represent the abstract set of pending subscriptions (any removal order) ---------------- *)
@@ -86,10 +93,21 @@ Theorem C15_outsiders_receive_nothing : forall pc subs evs x,
 Proof. exact Proofs.Notifier.outsiders_receive_nothing. Qed.
 Print Assumptions C15_outsiders_receive_nothing.
 
+(* LIVENESS, per subscriber: an eligible subscription (element type accepts the value, context not already cancelled
+   at the scan) whose target becomes ready - with neither its own context cancelled, nor an earlier readiness, nor the
+   end of the publish context before that moment - IS delivered to, whatever the others do and whatever comes later. *)
+Theorem C15_eligible_ready_is_delivered : forall pc subs pre post s,
+  NoDup (map sid subs) -> In s subs -> eligible s = true ->
+  ~ In (EvCancel (sid s)) pre -> ~ In (EvReady (sid s)) pre -> (pc = false \/ ~ In EvExit pre) ->
+  In (sid s) (fst (run_publish pc subs (pre ++ EvReady (sid s) :: post))).
+Proof. exact Proofs.NotifierMore.eligible_ready_is_delivered. Qed.
+Print Assumptions C15_eligible_ready_is_delivered.
+
 (* ---- when Publish returns ------------------------------------------------------------------------------------ *)
 
 (* It returns ONLY when each eligible subscription has received or had its context cancelled - unless the publish
-   context was cancelled. *)
+   context was cancelled.  (The cancellation disjunct ranges over the whole of [evs]; the sharper statement over the
+   consumed prefix is C15_returns_only_when_served_prefix below.) *)
 Theorem C15_returns_only_when_served : forall pc subs evs s,
   NoDup (map sid subs) ->
   snd (run_publish pc subs evs) = true -> pc = false \/ ~ In EvExit evs ->
@@ -97,6 +115,21 @@ Theorem C15_returns_only_when_served : forall pc subs evs s,
   In (sid s) (fst (run_publish pc subs evs)) \/ (In (EvCancel (sid s)) evs /\ has_ctx s = true).
 Proof. exact Proofs.Notifier.returns_only_when_served. Qed.
 Print Assumptions C15_returns_only_when_served.
+
+(* The same clause, sharpened: the disjunction above ranges over ALL of [evs], also over events after the return.
+   Here [pre] is the prefix of events the call consumed before returning: running [pre] alone gives the whole result
+   (same deliveries, returned), NO shorter prefix has returned, and by the end of [pre] either the publish context was
+   cancelled or each eligible subscription has received or had its own context cancelled - within [pre]. *)
+Theorem C15_returns_only_when_served_prefix : forall pc subs evs,
+  NoDup (map sid subs) -> snd (run_publish pc subs evs) = true ->
+  exists pre post, evs = pre ++ post /\
+    run_publish pc subs pre = run_publish pc subs evs /\
+    (forall pre' post', pre = pre' ++ post' -> post' <> [] -> snd (run_publish pc subs pre') = false) /\
+    ((pc = true /\ In EvExit pre) \/
+     forall s, In s subs -> compat s = true -> (has_ctx s && cancelled0 s) = false ->
+       In (sid s) (fst (run_publish pc subs pre)) \/ (In (EvCancel (sid s)) pre /\ has_ctx s = true)).
+Proof. exact Proofs.NotifierMore.returns_only_when_served_prefix. Qed.
+Print Assumptions C15_returns_only_when_served_prefix.
 
 (* ... and it DOES return once that is the case (nothing is lost, no spurious wait). *)
 Theorem C15_returns_when_served : forall pc subs evs,
@@ -164,6 +197,23 @@ Theorem C15_cancelled_registration_receives_nothing : forall k cr t, Proofs.Noti
 Proof. exact Proofs.Notifier.publish_ready_skips_cancelled. Qed.
 Print Assumptions C15_cancelled_registration_receives_nothing.
 
+(* The general form of the previous theorem ([publish_ready] is the special case "every target ready, no publish
+   context"): for EVERY event sequence and with or without a publish context, a registration whose context is already
+   cancelled receives nothing from a publish of what the registry holds under the key ... *)
+Theorem C15_cancelled_registration_receives_nothing_general : forall k cr t pc evs,
+  Proofs.Notifier.reg_ok (fst cr) -> In t (lookup k (fst cr)) -> ctx_of k t (snd cr) = CtxCancelled ->
+  ~ In t (fst (run_publish pc (subs_of k cr) evs)).
+Proof. exact Proofs.NotifierMore.cancelled_registration_receives_nothing. Qed.
+Print Assumptions C15_cancelled_registration_receives_nothing_general.
+
+(* ... while a registration with a live context or none does receive when its target becomes ready in time. *)
+Theorem C15_live_registration_is_delivered : forall k cr t pc pre post,
+  Proofs.Notifier.reg_ok (fst cr) -> In t (lookup k (fst cr)) -> ctx_of k t (snd cr) <> CtxCancelled ->
+  ~ In (EvCancel t) pre -> ~ In (EvReady t) pre -> (pc = false \/ ~ In EvExit pre) ->
+  In t (fst (run_publish pc (subs_of k cr) (pre ++ EvReady t :: post))).
+Proof. exact Proofs.NotifierMore.live_registration_is_delivered. Qed.
+Print Assumptions C15_live_registration_is_delivered.
+
 Theorem C15_second_unsubscribe_panics : forall k t r r', unsubscribe k t r = Some r' -> unsubscribe k t r' = None.
 Proof. exact Proofs.Notifier.unsubscribe_twice_panics. Qed.
 Print Assumptions C15_second_unsubscribe_panics.
@@ -186,6 +236,78 @@ Theorem C15_other_keys_receive_nothing : forall k r pc subs evs x,
   ~ In x (fst (run_publish pc subs evs)).
 Proof. exact Proofs.Notifier.other_keys_receive_nothing. Qed.
 Print Assumptions C15_other_keys_receive_nothing.
+
+(* ---- interleaving under n.mutex: every schedule of Model/NotifierLock.v -------------------------------------- *)
+
+(* "every subscription that exists for that key throughout the call": for every schedule and every publish still in
+   flight at its end, the targets in the publish's snapshot are exactly (and in the same order) the targets the
+   registry holds under its key NOW - no Subscribe / Unsubscribe can get in between (write lock vs. read lock) - they
+   are distinct (the hypothesis NoDup (map sid subs) of the theorems above), and the snapshot is [subs_of] of the
+   current registry with the context states of an earlier moment (ctx_le: a live context may have been cancelled since
+   the scan; the flight learns that through EvCancel). *)
+Theorem C15_snapshot_is_the_registry_throughout : forall sched st, run_sched true linit sched = Some st ->
+  forall f, In f (flights st) -> f_ended f = false ->
+    map sid (f_snap f) = lookup (f_key f) (fst (reg st)) /\
+    NoDup (map sid (f_snap f)) /\
+    exists tab0, f_snap f = subs_of (f_key f) (fst (reg st), tab0) /\ Proofs.NotifierLock.ctx_le tab0 (snd (reg st)).
+Proof. exact Proofs.NotifierLock.snapshot_throughout. Qed.
+Print Assumptions C15_snapshot_is_the_registry_throughout.
+
+(* the same, entry by entry, without the auxiliary table *)
+Theorem C15_snapshot_entries : forall sched st, run_sched true linit sched = Some st ->
+  forall f, In f (flights st) -> f_ended f = false ->
+  forall s, In s (f_snap f) ->
+    In (sid s) (lookup (f_key f) (fst (reg st))) /\ compat s = true /\
+    (has_ctx s = false <-> ctx_of (f_key f) (sid s) (snd (reg st)) = CtxNone) /\
+    (cancelled0 s = true -> ctx_of (f_key f) (sid s) (snd (reg st)) = CtxCancelled).
+Proof. exact Proofs.NotifierLock.snapshot_entries. Qed.
+Print Assumptions C15_snapshot_entries.
+
+(* ... and when no context is cancelled during the schedule the snapshot IS what the registry holds. *)
+Theorem C15_snapshot_exact_without_cancellations : forall sched st,
+  forallb (fun l => negb (is_ctx_cancel l)) sched = true -> run_sched true linit sched = Some st ->
+  forall f, In f (flights st) -> f_ended f = false -> f_snap f = subs_of (f_key f) (reg st).
+Proof. exact Proofs.NotifierLock.snapshot_exact. Qed.
+Print Assumptions C15_snapshot_exact_without_cancellations.
+
+(* "After Unsubscribe returns the target receives nothing from later publishes", for every schedule: when
+   Unsubscribe(k,t) returns (normally or panicking) no publish is in flight and t is not registered under k; whatever
+   happens afterwards - short of subscribing (k,t) again - the publishes that existed at that moment stay exactly as
+   they were (they had ended), and every publish under k that has delivered to t is one of those: no publish that
+   begins later delivers to t.  (Publishes under OTHER keys t is subscribed to still deliver: lock_demo.) *)
+Theorem C15_unsubscribe_barrier_every_schedule : forall pre post k t st1 st,
+  run_sched true linit (pre ++ [LUnsubscribe k t]) = Some st1 ->
+  run_sched true st1 post = Some st ->
+  (forall c, ~ In (LSubscribe c k t) post) ->
+  no_reader st1 = true /\ ~ In t (lookup k (fst (reg st1))) /\
+  (forall i f, nth_error (flights st1) i = Some f -> nth_error (flights st) i = Some f) /\
+  (forall i f, nth_error (flights st) i = Some f -> f_key f = k -> In t (f_delivered f) ->
+     nth_error (flights st1) i = Some f).
+Proof. exact Proofs.NotifierLock.unsubscribe_barrier_sched. Qed.
+Print Assumptions C15_unsubscribe_barrier_every_schedule.
+
+(* A Subscribe(k,t) that has returned (normally, or panicking because (k,t) was registered already) is seen by every
+   publish under k that begins later, unless (k,t) is unsubscribed in between: the new flight's snapshot holds t. *)
+Theorem C15_subscribe_seen_by_later_publish : forall pre mid c k t pc st,
+  run_sched true linit (pre ++ LSubscribe c k t :: mid ++ [LPubBegin pc k]) = Some st ->
+  ~ In (LUnsubscribe k t) mid ->
+  exists fs f, flights st = fs ++ [f] /\ f_key f = k /\ f_pc f = pc /\ f_hist f = [] /\ f_ended f = false /\
+               In t (map sid (f_snap f)) /\ map sid (f_snap f) = lookup k (fst (reg st)).
+Proof. exact Proofs.NotifierLock.subscribe_seen_by_later_publish. Qed.
+Print Assumptions C15_subscribe_seen_by_later_publish.
+
+(* The write lock is needed (same machine, [locked] = false: Subscribe / Unsubscribe enabled during a publish):
+   Unsubscribe(1,10) returns while a publish under key 1 is in flight whose snapshot still holds 10, and that publish
+   delivers to 10 after Unsubscribe has returned; with the lock the schedule is not enabled. *)
+Theorem C15_without_write_lock_refuted : exists sched e st1 st2,
+  run_sched false linit (sched ++ [LUnsubscribe 1 10]) = Some st1 /\
+  step false st1 (LPubStep 0 e) = Some st2 /\
+  map f_ended (flights st1) = [false] /\
+  map (fun f => map sid (f_snap f)) (flights st1) = [[10]] /\ lookup 1 (fst (reg st1)) = [] /\
+  map f_delivered (flights st1) = [[]] /\ map f_delivered (flights st2) = [[10]] /\
+  run_sched true linit (sched ++ [LUnsubscribe 1 10]) = None.
+Proof. exact Proofs.NotifierLock.unlocked_refuted. Qed.
+Print Assumptions C15_without_write_lock_refuted.
 
 (* ---- what breaks it (same transition function, variant selected by flags) ------------------------------------ *)
 
